@@ -35,7 +35,7 @@ MAP_MODES = ["seq", "thread", "process", "controlled", "async-thread", "async-co
 
 
 def plan(tier, seed):
-    n = 80 if tier == "quick" else 800
+    n = 110 if tier == "quick" else 800
     ex = [0, 2, 3] if tier == "quick" else [0, 1, 2, 3]
     descs = []
     for i in range(n):
@@ -99,6 +99,8 @@ def _check_snapshot(v, pipeline, fname, spec, scratch, mode, w):
         v.bad(f"snapshot-missing/{mode}", f"error_snapshot not set (function={fsnap is not None}, pipeline={snap is not None})", **w)
         return
     for label, s in (("direct", fsnap), ("file", None)):
+        if label == "file" and spec[0] == "Ctor":
+            continue  # an exception that cannot be rebuilt from its args cannot be unpickled (Python, not pipefunc): direct form only
         try:
             if s is None:
                 p = os.path.join(scratch, "snap.pkl")
@@ -286,6 +288,12 @@ def run_map_case(v, desc, scratch):
         for ei in desc["exc"][: 2]:
             spec = EXC[ei]
             modes = MAP_MODES if n % 3 == 0 else rng.sample(MAP_MODES, 3)
+            if n % 6 == 2:
+                # exception shapes with special behaviour: StopIteration (ends iterators silently; cannot cross asyncio futures, so
+                # sync entry points only) and a class whose constructor signature differs from its args (in-process only)
+                spec = [["StopIteration", "stop-msg"], ["Ctor", "x", "must not be negative"]][(n // 6) % 2]
+                modes = ["seq", "thread", "controlled"] + (["process", "default-pool"] if spec[0] == "StopIteration" else [])
+                v.count(f"special_exception_shapes:{spec[0]}")
             for mode in modes:
                 n += 1
                 second = None
@@ -344,8 +352,8 @@ def run_call_case(v, desc, scratch):
                 else:
                     args[p] = case["defaults"][p]
             term = daggen.call_term(f, args)
-            for ei in desc["exc"]:
-                spec = EXC[ei]
+            for ei in list(desc["exc"]) + (["stop", "ctor"] if desc["i"] % 2 == 0 else []):
+                spec = EXC[ei] if isinstance(ei, int) else {"stop": ["StopIteration", "stop-msg"], "ctor": ["Ctor", "x", "must not be negative"]}[ei]
                 form = rng.choice(["call", "run", "full"])
                 log = probes.new_log(scratch)
                 fault_d = {fname: {"raise": {term: spec}}}
@@ -384,7 +392,7 @@ def run_call_case(v, desc, scratch):
                 _check_snapshot(v, pipeline, fname, spec, scratch, form, w)
                 keys.append(f"{daggen.signature(case)}|{out}|{fname}|{spec[0]}|{form}")
                 # a second, different failure on the same pipeline object: the snapshot must describe it
-                spec2 = EXC[(ei + 1) % len(EXC)]
+                spec2 = EXC[((ei if isinstance(ei, int) else 0) + 1) % len(EXC)]
                 fault_d[fname]["raise"][term] = spec2
                 try:
                     with deadline(WATCHDOG), quiet():
